@@ -64,7 +64,6 @@ func ruleDDump(p *Program, r *Reporter) {
 	}
 }
 
-
 // inlineLines: the complete set of success lines of the nodes the dispatcher implements itself.
 // P stands for the truth predicate (whatever it is called; the rule checks it is the same function everywhere).
 var inlineLines = map[string][]string{
@@ -550,7 +549,6 @@ func ruleDDispatch(p *Program, r *Reporter) {
 	}
 }
 
-
 // sharesHelper: two node bases that are specified to use the same helper.
 func sharesHelper(a, b string) bool {
 	pairs := [][2]string{{"Equal", "NotEqual"}, {"Index", "SmallIndex"}}
@@ -561,7 +559,6 @@ func sharesHelper(a, b string) bool {
 	}
 	return false
 }
-
 
 // nodeValuedArg: the rendered argument "node.F" names a field of node type n that holds nodes (a node, or an array, slice or
 // map of nodes), as opposed to a plain value such as an index or a name.
